@@ -373,6 +373,9 @@ class AttributeCollection(MutableMapping[int, Attribute]):
 
         attributes = cls().parse(data, negotiated)
 
+        if Attribute.CODE.AGGREGATOR in attributes and Attribute.CODE.AS4_AGGREGATOR in attributes:
+            attributes.merge_aggregators()
+
         if Attribute.CODE.INTERNAL_TREAT_AS_WITHDRAW in attributes:
             return attributes
 
@@ -579,6 +582,22 @@ class AttributeCollection(MutableMapping[int, Attribute]):
             continue
 
         return self
+
+    def merge_aggregators(self) -> None:
+        """RFC 6793 4.2.3: one aggregator is left of AGGREGATOR and AS4_AGGREGATOR.
+
+        AS4_AGGREGATOR holds the true aggregator when the AS of AGGREGATOR is AS_TRANS,
+        and is ignored otherwise.  Both are reported under the name "aggregator".
+        """
+        from exabgp.bgp.message.open.asn import AS_TRANS
+        from exabgp.bgp.message.update.attribute.aggregator import Aggregator
+
+        aggregator = cast(Aggregator, self[Attribute.CODE.AGGREGATOR])
+        aggregator4 = cast(Aggregator, self[Attribute.CODE.AS4_AGGREGATOR])
+        self.remove(Attribute.CODE.AS4_AGGREGATOR)
+        if aggregator.asn == AS_TRANS:
+            self.remove(Attribute.CODE.AGGREGATOR)
+            self.add(Aggregator.make_aggregator(aggregator4.asn, aggregator4.speaker))
 
     def merge_attributes(self) -> None:
         as2path_attr = self[Attribute.CODE.AS_PATH]
